@@ -368,6 +368,28 @@ def _format_cases(func, cfg, node, fmt_expr, var):
             except struct.error:
                 bad.append('bad format %r' % f)
         return (not bad), ('; '.join(bad) if bad else 'cases %r' % (cases,))
+    # second idiom: the format is selected by len(var) itself and a guard admits a finite set of lengths
+    lt = 'len(%s)' % var
+    for e, tn in cfg.test_nodes.items():
+        if not (isinstance(e, ast.Compare) and len(e.ops) == 1 and isinstance(e.ops[0], (ast.In, ast.NotIn)) and norm(e.left) == lt):
+            continue
+        vals = try_const(e.comparators[0])
+        if not (isinstance(vals, (tuple, list)) and vals and all(isinstance(v, int) for v in vals)):
+            continue
+        label = 'true' if isinstance(e.ops[0], ast.In) else 'false'
+        if target in cfg.reachable(cfg.entry, avoid_edges=[(tn, label)]):
+            continue
+        bad = []
+        for lv in vals:
+            f = try_const(expr, {lt: lv})
+            if not isinstance(f, str):
+                return False, 'format not evaluable for %s == %d' % (lt, lv)
+            try:
+                if struct.calcsize(f) != lv:
+                    bad.append('%s == %d: format %r needs %d byte' % (lt, lv, f, struct.calcsize(f)))
+            except struct.error:
+                bad.append('bad format %r' % f)
+        return (not bad), ('; '.join(bad) if bad else 'lengths %r' % (tuple(vals),))
     return False, 'no guard relates len(%s) to the value that selects the format' % var
 
 
